@@ -161,6 +161,11 @@ def run(ctx: Ctx) -> None:
     r = random.Random(4321 + ctx.shard)
     for _ in range(60):
         run_case(ctx, gen.quotient_case(r))
+    # the elimination families of C04 dressed as quotients (eliminated variables = inputs shared with the divisor)
+    for _ in range(ctx.n(2500, 40000)):
+        if ctx.out_of_time():
+            break
+        run_case(ctx, gen.quotient_from_elim(ctx.rng))
     for _ in range(ctx.n(7000, 100000)):
         if ctx.out_of_time():
             break
